@@ -52,6 +52,7 @@ const COMMENT_BODIES: &[&str] = &[
     "",
     " \"unterminated string ",
     " uint256 s1; s1 = 5; ",
+    " line\u{2028}separator and paragraph\u{2029}separator and next\u{85}line are not line feeds ",
 ];
 
 #[derive(Clone, Copy, Debug, PartialEq, Eq)]
